@@ -120,6 +120,8 @@ class Monitors:
         self.track_prov = False          # provenance: id(artifact) -> set of (mstart, mend, pattern id) it was built from
         self.prov = {}
         self.prov_keep = []
+        self.track_post = False          # log of the latent-anchoring calls of a case (argument, snapshot, result)
+        self.post_log = []
         self.track_feat = False          # rule-application signatures (producer rules and value shapes of the arguments)
         self.feats = set()
         self.producer = {}
@@ -188,8 +190,12 @@ class Monitors:
         orig_post = getattr(m, "apply_postprocessing_rules", None)
 
         def apply_postprocessing_rules(ts, art):
+            before = V.full(art) if mon.track_post else None
             res = orig_post(ts, art)
             mon.events["latent_postprocess"] += 1
+            if mon.track_post:
+                # (the value handed to latent anchoring, a snapshot of it taken before the call, what came back)
+                mon.post_log.append((art, before, res))
             if mon.track_prov and res is not art:
                 mon.prov[id(res)] = mon.prov.get(id(art), set())
                 mon.prov_keep.append(res)
@@ -270,6 +276,7 @@ class Monitors:
         self.prov_keep = []
         self.feats = set()
         self.producer = {}
+        self.post_log = []
 
 
 class FixedNow:
